@@ -647,19 +647,31 @@ protected:
 	}
 #endif
 
-	// convert to native unsigned integer, use C++ conversion rules to cast down to float and double
+	// convert to native unsigned integer: the value hi + lo truncated toward zero
 	template<typename Unsigned>
 	Unsigned convert_to_unsigned() const noexcept {
 		int64_t h = static_cast<int64_t>(hi);
 		int64_t l = static_cast<int64_t>(lo);
+		// when hi is an integer, a fraction of lo with the opposite sign puts the value on the near side of the integer hi + l
+		double f = lo - std::trunc(lo);
+		if (hi == std::trunc(hi)) {
+			if (hi > 0.0 && f < 0.0) --l;
+			if (hi < 0.0 && f > 0.0) ++l;
+		}
 		return Unsigned(h + l);
 	}
 	
-	// convert to native unsigned integer, use C++ conversion rules to cast down to float and double
+	// convert to native signed integer: the value hi + lo truncated toward zero
 	template<typename Signed>
 	Signed convert_to_signed() const noexcept {
 		int64_t h = static_cast<int64_t>(hi);
 		int64_t l = static_cast<int64_t>(lo);
+		// when hi is an integer, a fraction of lo with the opposite sign puts the value on the near side of the integer hi + l
+		double f = lo - std::trunc(lo);
+		if (hi == std::trunc(hi)) {
+			if (hi > 0.0 && f < 0.0) --l;
+			if (hi < 0.0 && f > 0.0) ++l;
+		}
 		return Signed(h + l);
 	}
 
